@@ -2085,4 +2085,49 @@ theorem pyCall_toCall (s : Sig) (hwf : s.wf = true) (n : Named) (h : NamedWF s n
         have := h.in1 _ (mem_keys_of_mem hp.1); rw [hnn] at this; cases this
       · exact h.vk _ (mem_keys_of_mem hp)
 
+
+
+theorem bool_eq_of_iff {a b : Bool} (h : a = true ↔ b = true) : a = b := by
+  cases a <;> cases b <;> simp_all
+
+theorem kwAble_contains (npo : Nat) (s : Sig) (k : Name) (hk : (s.posNames.take npo).contains k = false) :
+    (kwAble npo s).contains k = s.names.contains k := by
+  apply bool_eq_of_iff
+  rw [List.contains_iff_mem, List.contains_iff_mem]
+  have hk' : k ∉ s.posNames.take npo := contains_false_iff.1 hk
+  unfold kwAble Sig.names
+  constructor
+  · intro h
+    rcases List.mem_append.1 h with h | h
+    · exact List.mem_append_left _ (List.mem_of_mem_drop h)
+    · exact List.mem_append_right _ h
+  · intro h
+    rcases List.mem_append.1 h with h | h
+    · rw [← List.take_append_drop npo s.posNames] at h
+      rcases List.mem_append.1 h with h | h
+      · exact absurd h hk'
+      · exact List.mem_append_left _ h
+    · exact List.mem_append_right _ h
+
+theorem bindKwPO_eq (npo : Nat) (s : Sig) (all kws : KW) (n : Named)
+    (hall : all.any (fun p => (s.posNames.take npo).contains p.1) = false)
+    (h : ∀ p ∈ kws, (s.posNames.take npo).contains p.1 = false) :
+    bindKwPO npo s all kws n = bindKw s kws n := by
+  induction kws generalizing n with
+  | nil => rfl
+  | cons p r ih =>
+    obtain ⟨k, v⟩ := p
+    have hk := h (k, v) (List.mem_cons_self ..)
+    have ihr := fun n' => ih n' (fun q hq => h q (List.mem_cons_of_mem _ hq))
+    simp only [bindKwPO, bindKw, kwAble_contains npo s k hk, hall, ihr, Bool.false_eq_true, if_false]
+
+/-- Calls that do not name a positional-only parameter by keyword bind as if there were none. -/
+theorem pyCallPO_eq (npo : Nat) (s : Sig) (c : Call)
+    (h : ∀ p ∈ c.kwargs, (s.posNames.take npo).contains p.1 = false) :
+    pyCallPO npo s c = pyCall s c := by
+  have hall : c.kwargs.any (fun p => (s.posNames.take npo).contains p.1) = false := by
+    rw [List.any_eq_false]; intro p hp; rw [h p hp]; simp
+  unfold pyCallPO pyCall pyBindPO pyBind nameArgsPO nameArgs
+  rw [bindKwPO_eq npo s c.kwargs c.kwargs _ hall h]
+
 end Pg.C18
